@@ -21,28 +21,42 @@ def history_case(case):
     d = C.workdir('C02', 'h%d' % case['i'])
     res = {'case': case, 'problems': [], 'successes': 0, 'shrinks': 0, 'account_rewrites': 0}
     ca = C.MockCA(d + '/ca', {'default': {}})
+    # file names: the documented pieces are a name format and one extension option per file class
+    nm = case.get('names') or {'fmt': '{{ name }}.{{ file_type }}.{{ ext }}', 'cert_ext': None, 'pk_ext': None}
+
+    def path_of(ft):
+        ext = (nm['cert_ext'] if ft == 'crt' else nm['pk_ext']) or 'pem'
+        return d + '/certs/' + nm['fmt'].replace('{{ name }}', 'c0').replace('{{ file_type }}', ft).replace('{{ ext }}', ext)
     try:
         prev_len = None
         prev_acc_size = None
         for pi, ph in enumerate(case['phases']):
             n = len(ph['chain_lens'])
             # the CA indexes these lists by the number of certificates issued so far for this identifier set
-            cum_chain = (cum_chain if pi else []) + ph['chain_lens']
+            # (an attempt whose download is damaged has consumed an issuance at the CA: one more entry for it)
+            extra_issue = 1 if ph.get('bad_first_download') else 0
+            cum_chain = (cum_chain if pi else []) + ph['chain_lens'][:1] * extra_issue + ph['chain_lens']
             # short lifetimes going down (each certificate expires before the one it replaces), the last one long
-            cum_life = (cum_life if pi else []) + [400 - 60 * k for k in range(n - 1)] + [LONG]
+            cum_life = (cum_life if pi else []) + [400 - 60 * k for k in range(n - 1 + extra_issue)] + [LONG]
+            if case.get('same_leaf'):
+                # a certificate handed out again keeps its dates: every lifetime stays short so that renewals go on
+                cum_life = [400 - 20 * k for k in range(len(cum_chain))]
             faults = []
             if ph.get('bad_first_download'):
                 # the first answer of one certificate download is not a chain: the attempt must fail and the retry store the right body
                 faults = [{'kind': 'cert', 'action': 'cert_body', 'body': ph['bad_first_download'], 'max_fires': 1, 'id': 'bad-first-download'}]
-            ca.set_plan({'default': {'chain_lens': cum_chain, 'lifetimes_s': cum_life, 'pem_styles': case.get('pem_styles')}, 'faults': faults})
+            ca.set_plan({'default': {'chain_lens': cum_chain, 'lifetimes_s': cum_life, 'pem_styles': case.get('pem_styles'),
+                                     # with a re-used key some CAs hand the very same end-entity certificate out again, whatever the chain of the day
+                                     'same_leaf_for_same_key': bool(case.get('same_leaf'))}, 'faults': faults})
             cfg = S.std_config(d, ca, [{'name': 'c0', 'identifiers': S.ids('h.example.org'), 'key_type': ph['key_type'],
-                                        'file_name_format': '{{ name }}.{{ file_type }}.{{ ext }}',
+                                        'file_name_format': nm['fmt'],
                                         'kp_reuse': ph.get('kp_reuse', False)}],
-                               accounts=[{'name': 'acc1', 'contacts': ph['contacts'], 'key_type': ph.get('acc_key', 'ecdsa_p256')}])
+                               accounts=[{'name': 'acc1', 'contacts': ph['contacts'], 'key_type': ph.get('acc_key', 'ecdsa_p256')}],
+                               global_extra={k: v for k, v in (('cert_file_ext', nm['cert_ext']), ('pk_file_ext', nm['pk_ext'])) if v})
             open(d + '/acmed.toml', 'w').write(C.toml_dumps(cfg))
             if pi > 0 and ph.get('corrupt_key'):
                 # the stored key became unusable (cut in half): with kp_reuse the daemon must generate, use AND store a new one
-                kp = d + '/certs/c0.pk.pem'
+                kp = path_of('pk')
                 try:
                     data = open(kp, 'rb').read()
                     open(kp, 'wb').write(data[:len(data) // 2])
@@ -52,7 +66,7 @@ def history_case(case):
                 # make a renewal due at start-up: without its certificate file the daemon requests one at once
                 # (the key file of the previous run stays in place and is overwritten)
                 try:
-                    os.remove(d + '/certs/c0.crt.pem')
+                    os.remove(path_of('crt'))
                 except OSError:
                     pass
             mark = len(C.read_jsonl(d + '/hooks.log'))
@@ -75,6 +89,8 @@ def history_case(case):
             orders = {}
             for r in log:
                 ex = r.get('extra') or {}
+                if ex.get('leaf_reused'):
+                    res['leaf_reused'] = res.get('leaf_reused', 0) + 1
                 if ex.get('issued'):
                     res.setdefault('styles', set()).add(ex['issued'].get('pem_style'))
                     orders[ex['order']] = {'body_sha': ex['issued']['body_sha'], 'body_len': ex['issued']['body_len'],
@@ -93,6 +109,11 @@ def history_case(case):
                     continue
                 res['successes'] += 1
                 cf = p.get('cert_file') or {}
+                # the files are where the name format and the extension options say
+                for ft, var in (('crt', 'certificate_path'), ('pk', 'private_key_path')):
+                    if k == len(po) - 1 and not os.path.isfile(path_of(ft)):
+                        res['problems'].append(('file-name', 'phase %d issuance %d: no %s file at %s (format %r, cert_file_ext %r, pk_file_ext %r); directory holds %s' % (
+                            pi, k, ft, os.path.basename(path_of(ft)), nm['fmt'], nm['cert_ext'], nm['pk_ext'], sorted(os.listdir(d + '/certs')))))
                 if prev_len is not None and o['body_len'] < prev_len:
                     res['shrinks'] += 1
                 if cf.get('sha256') != o['body_sha']:
@@ -105,7 +126,7 @@ def history_case(case):
                     res['problems'].append(('key-file', 'phase %d issuance %d: private-key file is not the key of the CSR' % (pi, k)))
                 else:
                     # exact content: the PEM must hold exactly one key block and nothing else
-                    kf = open(d + '/certs/c0.pk.pem', 'rb').read() if k == len(po) - 1 else None
+                    kf = open(path_of('pk'), 'rb').read() if (k == len(po) - 1 and os.path.exists(path_of('pk'))) else None
                     if kf is not None and (kf.count(b'-----BEGIN') != 1 or not kf.rstrip(b'\n').endswith(b'-----END PRIVATE KEY-----')):
                         res['problems'].append(('key-file', 'phase %d issuance %d: private-key file holds residue after the key (%d bytes, %d PEM headers)' % (pi, k, len(kf), kf.count(b'-----BEGIN'))))
                 prev_len = o['body_len']
@@ -215,7 +236,10 @@ def run(tier):
                 phases[-1]['bad_first_download'] = r.choice(['truncated', 'garbage', 'html', 'truncated-tail'])
         styles = ['canonical', 'blank-lines', 'crlf', 'no-final-newline', 'text-around', 'wrap76']
         r.shuffle(styles)
-        cases.append({'i': i, 'phases': phases, 'pem_styles': styles if i % 2 else ['canonical']})
+        names = [None, None, {'fmt': '{{ name }}.{{ ext }}', 'cert_ext': 'crt', 'pk_ext': 'key'}, {'fmt': '{{ name }}.{{ file_type }}.{{ ext }}', 'cert_ext': 'cer', 'pk_ext': None},
+                 None, {'fmt': '{{ name }}-{{ file_type }}.{{ ext }}', 'cert_ext': None, 'pk_ext': 'key'}][i % 6]
+        cases.append({'i': i, 'phases': phases, 'pem_styles': styles if i % 2 else ['canonical'], 'names': names,
+                      'same_leaf': i % 3 == 1 and i % 2 == 0})
     results = C.parallel(cases, history_case)
     for res in results:
         chk.evaluations += 1
@@ -224,6 +248,9 @@ def run(tier):
             chk.count('histories_incomplete')
         chk.count('successful_issuances_compared', res['successes'])
         chk.count('chain_got_shorter', res['shrinks'])
+        chk.count('same_leaf_served_with_another_chain', res.get('leaf_reused', 0))
+        if res['case'].get('names') and res['successes']:
+            chk.count('histories_with_custom_file_names')
         for st in res.pop('styles', set()):
             chk.count('pem_layout_%s' % st)
         chk.count('account_file_got_shorter', res['account_rewrites'])
